@@ -13,7 +13,9 @@ CONSTANTS
   Ranges = {10, 15, 20, 30, 40, 44}
   Offsets = {0, 5, 10}
   UseSTs = {TRUE, FALSE}
+  Steps = {0, 10, 25}
+  NSteps = 4
   BuildMode = TRUE
   EmitOn = TRUE
-INVARIANTS TypeOK ImplMatchesRef IncrementsLaw NonNegative IncreaseIsRateTimesRange NoResetIncreaseIsDelta FactorBounded CountsBounded OffsetLaw Emit
+INVARIANTS TypeOK ImplMatchesRef WindowReuse IncrementsLaw NonNegative IncreaseIsRateTimesRange NoResetIncreaseIsDelta FactorBounded CountsBounded OffsetLaw Emit
 CHECK_DEADLOCK FALSE
